@@ -53,6 +53,14 @@ DICT_STEPS = {"_data", "data", "_cache", "cache", "metadata", "face_attributes",
               "edge_data", "node_data", "kwargs", "vertex_attributes", "_attrib", "extras", "_visual_attributes"}
 COLLECTION_STEPS = {"entities", "geometry", "materials", "children", "nodes", "meshes", "lights"}
 
+# getters that lazily create a default object on first access; the creation is not an effect of the operation that
+# happened to be the first reader (reasoned, frozen): their non-memo writes are not merged into callers
+LAZY_GETTERS = {
+    "trimesh.scene.scene:Scene.camera": "creates a default camera (and its graph node) when none was set",
+    "trimesh.scene.scene:Scene.lights": "creates default lights when none were set",
+    "trimesh.parent:Geometry.source": "creates an empty LoadSource when the loader did not attach one",
+}
+
 # receiver typing by attribute / parameter name (the repository's naming conventions; frozen, printed in evidence)
 ATTR_ROLE = {
     "_data": ["trimesh.caching.DataStore"], "_cache": ["trimesh.caching.Cache"],
@@ -79,20 +87,29 @@ ELEMENT_ROLE = {"entities": ["trimesh.path.entities.Entity"], "geometry": ["trim
 
 
 class Ref:
-    __slots__ = ("root", "path")
+    """`held`: the storage is an ELEMENT of a container built in this function (list / dict / set literal or
+    comprehension); mutating the container is not a write to the element, taking an element gives the storage back"""
+    __slots__ = ("root", "path", "held")
 
-    def __init__(self, root, path=()):
+    def __init__(self, root, path=(), held=False):
         self.root = root
         self.path = tuple(path)[:MAXLEN]
+        self.held = held
 
     def __hash__(self):
-        return hash((self.root, self.path))
+        return hash((self.root, self.path, self.held))
 
     def __eq__(self, o):
-        return isinstance(o, Ref) and self.root == o.root and self.path == o.path
+        return isinstance(o, Ref) and self.root == o.root and self.path == o.path and self.held == o.held
 
     def ext(self, step):
         return Ref(self.root, self.path + (step,))
+
+    def hold(self):
+        return self if (self.held or self.root == FRESH) else Ref(self.root, self.path, True)
+
+    def unhold(self):
+        return Ref(self.root, self.path) if self.held else self
 
     @property
     def fresh(self):
@@ -323,7 +340,46 @@ class _Analyzer:
             after = (self.s.size(), sum(len(v) for v in self.env.values()))
             if before == after:
                 break
+        if not self.flow_sensitive:
+            return self.s
+        # second phase: re-analyse statement by statement with the aliases restricted to the definitions that reach
+        # each statement (strong updates for plain rebinding); the flow-insensitive result is the fallback environment
+        try:
+            from .cfg import CFG, own_exprs, reaching_defs
+
+            cfg = CFG(self.fi.node, exceptions=False)
+            rd = reaching_defs(cfg)
+        except RecursionError:
+            return self.s
+        self._base_env = dict(self.env)
+        self._base_types = dict(self.types)
+        coarse = self.s
+        self.s = Summary()
+        self.s.calls = coarse.calls
+        for n in sorted(cfg.stmt):
+            st = cfg.stmt[n]
+            kind = cfg.kind[n]
+            if st is None or kind == "join":
+                continue
+            self.env, self.types = self.env_at(cfg, rd, n)
+            if kind == "stmt":
+                self.stmt(st)
+            elif kind == "for":
+                refs, types = self.expr_t(st.iter)
+                self.read(refs)
+                elem = {r if r.fresh else r.ext("[*]") for r in refs}
+                # element aliases are recorded in the base environment by phase one; nothing to store here
+            elif kind == "with":
+                for item in st.items:
+                    self.use(self.expr(item.context_expr))
+            else:
+                for e in own_exprs(st):
+                    if isinstance(e, ast.expr):
+                        self.use(self.expr(e))
+        self.env, self.types = self._base_env, self._base_types
         return self.s
+
+    flow_sensitive = True
 
     # ------------------------------------------------------------------ recording
     def canon(self, r):
@@ -346,12 +402,12 @@ class _Analyzer:
         for r0 in refs:
             if r0.root in (FRESH, UNKNOWN):
                 continue
-            for r in self.canon(r0):
+            for r in self.canon(r0.unhold()):
                 self.s.reads.add((r.root, self.eng.normalise(r.path), tag))
 
     def write(self, refs, kind, node):
         for r0 in refs:
-            if r0.root in (FRESH,):
+            if r0.root in (FRESH,) or r0.held:
                 continue
             r = self.canon(r0)[0]
             path = self.eng.normalise(r.path)
@@ -422,7 +478,7 @@ class _Analyzer:
             self.read(refs)
             elem = set()
             for r in refs:
-                elem.add(r if r.fresh else r.ext("[*]"))
+                elem.add(r if r.fresh else (r.unhold() if r.held else r.ext("[*]")))
             self.assign(st.target, elem, self._elem_types(st.iter, types), st, loopvar=True)
             for b in st.body + st.orelse:
                 self.stmt(b)
@@ -551,6 +607,9 @@ class _Analyzer:
                 if r.fresh:
                     out.add(r)
                     continue
+                if r.held:
+                    out.add(r.unhold())
+                    continue
                 lp = self.eng.normalise(r.path)[-1] if r.path else None
                 if key is not None and (isinstance(e.slice.value, str) or lp in DICT_STEPS):
                     out.add(r.ext(key))
@@ -569,29 +628,29 @@ class _Analyzer:
         if isinstance(e, (ast.Tuple, ast.List, ast.Set)):
             out = {Ref(FRESH)}
             for x in e.elts:
-                out |= self.expr(x.value if isinstance(x, ast.Starred) else x)
+                out |= {r.hold() for r in self.expr(x.value if isinstance(x, ast.Starred) else x)}
             return out, set()
         if isinstance(e, ast.Dict):
             out = {Ref(FRESH)}
             for k, v in zip(e.keys, e.values):
                 if k is not None:
                     self.use(self.expr(k))
-                out |= self.expr(v)
+                out |= {r.hold() for r in self.expr(v)}
             return out, set()
         if isinstance(e, (ast.ListComp, ast.SetComp, ast.GeneratorExp, ast.DictComp)):
             for g in e.generators:
                 refs, types = self.expr_t(g.iter)
                 self.read(refs)
-                elem = {r if r.fresh else r.ext("[*]") for r in refs}
+                elem = {r if r.fresh else (r.unhold() if r.held else r.ext("[*]")) for r in refs}
                 self.assign(g.target, elem, self._elem_types(g.iter, types), e, loopvar=True)
                 for c in g.ifs:
                     self.use(self.expr(c))
             out = {Ref(FRESH)}
             if isinstance(e, ast.DictComp):
                 self.use(self.expr(e.key))
-                out |= self.expr(e.value)
+                out |= {r.hold() for r in self.expr(e.value)}
             else:
-                out |= self.expr(e.elt)
+                out |= {r.hold() for r in self.expr(e.elt)}
             return out, set()
         if isinstance(e, ast.IfExp):
             self.use(self.expr(e.test))
@@ -706,7 +765,9 @@ class _Analyzer:
         if r.root in binding:
             out = set()
             for b in binding[r.root]:
-                out.add(b if (b.fresh or b.root == UNKNOWN) else Ref(b.root, b.path + r.path))
+                if b.held and r.path:
+                    continue  # a field of the callee's parameter: the container we passed has no such field of the element
+                out.add(b if (b.fresh or b.root == UNKNOWN) else Ref(b.root, b.path + r.path, b.held or r.held))
             return out
         if r.root in (FRESH, UNKNOWN) or r.root.startswith("GLOBAL:"):
             return {r}
@@ -757,6 +818,7 @@ class _Analyzer:
     def _apply(self, sub, binding, node, is_getter=False, getter=None, recv=()):
         if self.shallow and not is_getter:
             return
+        lazy_default = is_getter and getter is not None and f"{getter.module.name}:{getter.qualname}" in LAZY_GETTERS
         lazy = {(r.root, r.path) for r in sub.ret} if is_getter else set()
         for (root, path, tag) in sub.reads:
             if tag == "value" and (root, path) in lazy:
@@ -764,8 +826,10 @@ class _Analyzer:
             for r in self._subst_ref(Ref(root, path), binding):
                 self.read([r], tag)
         for (root, path, kind) in sub.writes:
+            if lazy_default and kind != "memo":
+                continue
             for r in self._subst_ref(Ref(root, path), binding):
-                if r.root in (FRESH,):
+                if r.root in (FRESH,) or r.held:
                     continue
                 p = self.eng.normalise(r.path)
                 k = "memo" if "_cache" in p else kind
@@ -876,7 +940,7 @@ class _Analyzer:
                 self.write([r for r in recv if r.path or r.root in self.params], "inplace", e)
                 self.eng.stats["external"] += 1
                 if fname in ("pop", "setdefault"):
-                    return {r.ext("[*]") if not r.fresh else r for r in recv}, set()
+                    return {(r.unhold() if r.held else r.ext("[*]")) if not r.fresh else r for r in recv}, set()
                 return {Ref(FRESH)}, set()
             if not rtypes and recv and any(not r.fresh for r in recv):
                 # unknown receiver type: try name-based CHA when exactly one class family defines the method
